@@ -23,7 +23,7 @@ LEVEL_NOTE = "trusted: World.shutdown(graceful=False)/up emulation of process de
 
 
 def budget(tier):
-    return {"quick": {"runs": 400, "wall": 200}, "thorough": {"runs": 25000, "wall": 1700}}[tier]
+    return {"quick": {"runs": 400, "wall": 200}, "thorough": {"runs": 4800, "wall": 900}}[tier]
 
 
 def _crash_run(case, crash):
